@@ -1,10 +1,13 @@
 (* C09 - An accepted audit proof implies nothing committed earlier was removed or altered.
-   Proved here: what the auditor's checks establish structurally.  The semantic conclusion (every
-   leaf committed by h_i is committed by h_(i+1)) follows from prefix-freeness + the rebuild being the
-   canonical trie; that refinement is decided per run by the adversarial correspondence and the
-   ground-truth oracle (the rebuilt end tree must contain every claimed element), see DESIGN.md. *)
-From Coq Require Import List Bool NArith.
-From Akd Require Import NodeLabel ElemSet Hashing Tree Directory Verify VerifyFacts.
+   First the semantic conclusion, for EVERY proof an adversary may present (not only those the
+   honest server emits): if the auditor accepts a proof against the root hashes of well-formed
+   trees, every leaf (label, value, epoch) of the earlier tree is a leaf of the later one, and the
+   later tree holds nothing else than the proof's inserted nodes stamped with the end epoch - or a
+   collision of the hash function has been exhibited.  Then what the auditor's checks establish
+   structurally. *)
+From Coq Require Import List Bool NArith Lia.
+From Akd Require Import NodeLabel NodeLabelFacts ElemSet Hashing Tree TreeFacts HashingFacts Binding HashingBinding Directory Verify VerifyFacts.
+From Akd Require Import InsertRefine AuditRebuild AuditSound.
 Import ListNotations.
 Open Scope N_scope.
 
@@ -32,3 +35,100 @@ Theorem C09_root_hashes_determined : forall cfg pf proofs epochs hashes hashes',
   proofs <> [] -> hashes = hashes'.
 Proof. exact chain_hashes_determined. Qed.
 Print Assumptions C09_root_hashes_determined.
+
+(* ------------------------------------------------------------------ the semantic conclusion *)
+Section C09.
+  Variable H : bytes -> bytes.
+  Hypothesis H_len : forall x, length (H x) = 32%nat.
+  Variable domain : bytes.
+
+  (* one audited epoch: nothing removed, nothing altered (label, value and epoch of every earlier leaf) *)
+  Theorem C09_step_keeps_whatsapp : forall ins unch T0 T1 e,
+    troot_ok T0 -> troot_ok T1 -> proof_ok (ins, unch) ->
+    verify_consecutive (whatsapp H) true (ins, unch) (root_hash (whatsapp H) true T0) (root_hash (whatsapp H) true T1) e = true ->
+    (forall y, In y (leaves T0) -> In y (leaves T1)) \/ Collision H.
+  Proof. exact (audit_step_keeps (whatsapp H) (Collision H) (whatsapp_binding H H_len)). Qed.
+
+  Theorem C09_step_keeps_experimental : forall ins unch T0 T1 e,
+    troot_ok T0 -> troot_ok T1 -> proof_ok (ins, unch) ->
+    verify_consecutive (experimental H domain) true (ins, unch)
+      (root_hash (experimental H domain) true T0) (root_hash (experimental H domain) true T1) e = true ->
+    (forall y, In y (leaves T0) -> In y (leaves T1)) \/ BadE H.
+  Proof. exact (audit_step_keeps (experimental H domain) (BadE H) (experimental_binding H H_len domain)). Qed.
+
+  (* ... and nothing added but the proof's inserted nodes, stamped with the end epoch *)
+  Theorem C09_step_adds_only_whatsapp : forall ins unch T0 T1 e,
+    troot_ok T0 -> troot_ok T1 -> proof_ok (ins, unch) -> e < 2 ^ 64 ->
+    verify_consecutive (whatsapp H) true (ins, unch) (root_hash (whatsapp H) true T0) (root_hash (whatsapp H) true T1) e = true ->
+    (forall y, In y (leaves T1) -> In y (leaves T0) \/ exists i, In i ins /\ y = LF (e_label i) (e_value i) e) \/ Collision H.
+  Proof. exact (audit_step_adds_only (whatsapp H) (Collision H) (whatsapp_binding H H_len)). Qed.
+
+  Theorem C09_step_adds_only_experimental : forall ins unch T0 T1 e,
+    troot_ok T0 -> troot_ok T1 -> proof_ok (ins, unch) -> e < 2 ^ 64 ->
+    verify_consecutive (experimental H domain) true (ins, unch)
+      (root_hash (experimental H domain) true T0) (root_hash (experimental H domain) true T1) e = true ->
+    (forall y, In y (leaves T1) -> In y (leaves T0) \/ exists i, In i ins /\ y = LF (e_label i) (e_value i) e) \/ BadE H.
+  Proof. exact (audit_step_adds_only (experimental H domain) (BadE H) (experimental_binding H H_len domain)). Qed.
+
+  (* audit_verify over a range of epochs: whatever the first root hash commits to, every later one does *)
+  Theorem C09_range_keeps_whatsapp : forall Ts p,
+    Forall troot_ok Ts -> Forall proof_ok (ap_proofs p) ->
+    audit_verify_gen (whatsapp H) true (map (root_hash (whatsapp H) true) Ts) p = true ->
+    (forall T0 r, Ts = T0 :: r -> forall T, In T r -> forall y, In y (leaves T0) -> In y (leaves T)) \/ Collision H.
+  Proof. exact (audit_verify_keeps (whatsapp H) (Collision H) (whatsapp_binding H H_len)). Qed.
+
+  Theorem C09_range_keeps_experimental : forall Ts p,
+    Forall troot_ok Ts -> Forall proof_ok (ap_proofs p) ->
+    audit_verify_gen (experimental H domain) true (map (root_hash (experimental H domain) true) Ts) p = true ->
+    (forall T0 r, Ts = T0 :: r -> forall T, In T r -> forall y, In y (leaves T0) -> In y (leaves T)) \/ BadE H.
+  Proof. exact (audit_verify_keeps (experimental H domain) (BadE H) (experimental_binding H H_len domain)). Qed.
+End C09.
+Print Assumptions C09_step_keeps_whatsapp.
+Print Assumptions C09_step_keeps_experimental.
+Print Assumptions C09_step_adds_only_whatsapp.
+Print Assumptions C09_step_adds_only_experimental.
+Print Assumptions C09_range_keeps_whatsapp.
+Print Assumptions C09_range_keeps_experimental.
+
+(* the rebuild the auditor performs: over prefix-free canonical labels of any lengths it is a
+   well-formed trie whose leaves are exactly the given nodes (no node is dropped or shadowed) *)
+Theorem C09_rebuild_is_the_node_set : forall empty, canonical empty = false -> forall latest nodes,
+  nodes_ok nodes -> (forall x, In x nodes -> bits_of (e_label x) <> []) ->
+  exists t num, Insert.batch_insert empty (empty_root, latest, 1) nodes = Some (t, latest + 1, num) /\
+    wf_root t = true /\ Permutation.Permutation (leaves t) (map (lf_of (latest + 1)) nodes).
+Proof. exact rebuild_spec. Qed.
+Print Assumptions C09_rebuild_is_the_node_set.
+
+(* the premises are satisfiable and the auditor's acceptance is reachable: a two-leaf example run
+   with a transparent 32-byte "hash" (truncation / zero padding), so that it evaluates inside Coq *)
+Definition toyH (x : bytes) : bytes := firstn 32 (x ++ repeat 0 32).
+Definition ex_la : nlabel := nl_of_bits (repeat false 256).
+Definition ex_lb : nlabel := nl_of_bits (true :: repeat false 255).
+Definition ex_va : bytes := repeat 7 32.
+Definition ex_vb : bytes := repeat 9 32.
+Definition ex_T0 : tree := Node nl_root 1 1 (Some (Leaf ex_la ex_va 1)) None.
+Definition ex_T1 : tree := Node nl_root 2 1 (Some (Leaf ex_la ex_va 1)) (Some (Leaf ex_lb ex_vb 2)).
+Definition ex_proof : list elem * list elem :=
+  ([El ex_lb ex_vb], [El ex_la (c_leaf_hash (whatsapp toyH) ex_va 1)]).
+
+Example C09_premises_satisfiable :
+  troot_ok ex_T0 /\ troot_ok ex_T1 /\ proof_ok ex_proof /\
+  verify_consecutive (whatsapp toyH) true ex_proof (root_hash (whatsapp toyH) true ex_T0) (root_hash (whatsapp toyH) true ex_T1) 2 = true.
+Proof.
+  assert (La : LW ex_la) by (apply WF_LW; vm_compute; reflexivity).
+  assert (Lb : LW ex_lb) by (apply WF_LW; vm_compute; reflexivity).
+  assert (Lr : LW nl_root) by (apply WF_LW; vm_compute; reflexivity).
+  split; [|split; [|split]].
+  - split; [|split].
+    + cbn [tree_ok ex_T0 tlabel]. split; [exact Lr|]. split; [split; [exact La | reflexivity] | exact I].
+    + vm_compute. reflexivity.
+    + intros y Hy. cbn [ex_T0 leaves app] in Hy. destruct Hy as [<-|[]]. vm_compute. reflexivity.
+  - split; [|split].
+    + cbn [tree_ok ex_T1 tlabel]. split; [exact Lr|]. split; split; first [exact La | exact Lb | reflexivity].
+    + vm_compute. reflexivity.
+    + intros y Hy. cbn [ex_T1 leaves app] in Hy. destruct Hy as [<-|[<-|[]]]; vm_compute; reflexivity.
+  - split.
+    + intros x Hx. cbn in Hx. destruct Hx as [<-|[<-|[]]]; split; vm_compute; reflexivity.
+    + intros x Hx. cbn [ex_proof fst snd app] in Hx. destruct Hx as [<-|[<-|[]]]; vm_compute; reflexivity.
+  - vm_compute. reflexivity.
+Qed.
